@@ -264,11 +264,20 @@ def rd_part(res, tier, rnd, count, explicit=None):
                 sizes = [len(t) for _, t in zip(range(200), ts.proof_tree_generator_dfs(pr, r))]
                 if len(sizes) < 200:
                     ask(f"sizes {r}", f"sizes {sizes}", "dfs generator (unbounded) sizes", dict(hist, root=r), None)
-                # bounded generator: everything yielded under maximum=m has len <= m... (strictly: < m+? the code uses <)
-                for m in range(1, len(node) + 2):
-                    for _, t in zip(range(20), ts.proof_tree_generator_dfs(pr, r, maximum=m)):
+                # bounded generator vs its Lean model (dfsTreeB, proven to be the unbounded model filtered by size <= maximum)
+                for m in range(0, len(node) + 2):
+                    bs = []
+                    for _, t in zip(range(200), ts.proof_tree_generator_dfs(pr, r, maximum=m)):
+                        bs.append(len(t))
                         if len(t) > m:
                             res.fail("bounded-dfs-yields-too-large", dict(hist, root=r, maximum=m), str(t))
+                    if len(bs) < 200 and len(sizes) < 200:
+                        ask(f"bsizes {r} {m}", f"bsizes {bs}", "dfs generator (bounded) sizes", dict(hist, root=r, maximum=m), None)
+                        if bs != [x for x in sizes if x <= m]:
+                            res.fail("bounded-dfs-not-the-filtered-unbounded", dict(hist, root=r, maximum=m), {"bounded": bs, "unbounded": sizes})
+                # the binary search of _get_smallest_node in the model (smallest_is_min), from the size of the last tree found
+                if len(sizes) < 200:
+                    ask(f"bsearch {r} {sizes[0]}", f"bsearch {min(sizes)}", "binary search over the bounded model", dict(hist, root=r), None)
     out = common.run_driver("C05", "\n".join(lines) + "\n")
     assert len(out) == len(lines), (len(out), len(lines))
     for (expect, what, hist, oracle), got in zip(metas, out):
